@@ -242,7 +242,7 @@ def parse_assumptions(out):
     for b in blocks:
         for line in b.splitlines():
             m = re.match(r"^([A-Za-z_][\w\.']*)\s*:", line)
-            if m:
+            if m and m.group(1) != "Axioms":
                 names.add(m.group(1))
     return closed, sorted(names)
 
